@@ -493,6 +493,33 @@ var families = []family{
 		}
 		return out
 	}},
+	{"decimal-midline", func(n int) []geometry.Point {
+		// decimal (non-dyadic) coordinates for which (min+max)/2 and
+		// min+(max-min)/2 differ by an ulp, with vertices bit-exactly on
+		// every candidate midline (depth 0..2, both formulas) of the box
+		if n < 6 {
+			return make([]geometry.Point, n)
+		}
+		x0, x1, y0, y1 := 12.3, 15.1, 0.2, 1.0
+		ys := midlines(y0, y1, 2)
+		xs := midlines(x0, x1, 2)
+		out := []geometry.Point{{X: x0, Y: y0}, {X: x1, Y: y0}, {X: x1, Y: y1}, {X: x0, Y: y1}}
+		for i := 4; i < n; i++ {
+			k := i - 4
+			y := y1 - (y1-y0)*float64(k+1)/float64(n-3)
+			x := x0
+			if k%2 == 1 {
+				x = x0 + 0.05
+			}
+			if k < 2*len(ys) { // teeth with tips / roots exactly on the candidate midlines
+				y = ys[k/2]
+			} else if k < 2*len(ys)+len(xs) {
+				x = xs[k-2*len(ys)]
+			}
+			out = append(out, geometry.Point{X: x, Y: y})
+		}
+		return out
+	}},
 	{"grid-walk", func(n int) []geometry.Point {
 		out := make([]geometry.Point, n)
 		for i := range out {
@@ -585,6 +612,42 @@ func c04Series(r *rt.Run, w *rt.Worker, ctx *c04ctx, pts []geometry.Point, close
 	}
 }
 
+// midlines returns the candidate split coordinates of a quadtree over
+// [lo,hi] down to the given depth, computed with both midpoint formulas.
+func midlines(lo, hi float64, depth int) []float64 {
+	m1, m2 := (lo+hi)/2, lo+(hi-lo)/2
+	out := []float64{m1}
+	if m2 != m1 {
+		out = append(out, m2)
+	}
+	if depth > 0 {
+		out = append(out, midlines(lo, m1, depth-1)...)
+		out = append(out, midlines(m1, hi, depth-1)...)
+	}
+	return out
+}
+
+// midlineQueries: degenerate query rectangles exactly on the candidate split
+// lines of the series' bounding box (and the points where they cross).
+func midlineQueries(rc geometry.Rect) []geometry.Rect {
+	if !(rc.Max.X-rc.Min.X < math.MaxFloat64 && rc.Max.Y-rc.Min.Y < math.MaxFloat64) {
+		return nil
+	}
+	xs, ys := midlines(rc.Min.X, rc.Max.X, 2), midlines(rc.Min.Y, rc.Max.Y, 2)
+	inf := math.Inf(1)
+	var out []geometry.Rect
+	for _, x := range xs {
+		out = append(out, geometry.Rect{Min: geometry.Point{X: x, Y: -inf}, Max: geometry.Point{X: x, Y: inf}})
+	}
+	for _, y := range ys {
+		out = append(out, geometry.Rect{Min: geometry.Point{X: -inf, Y: y}, Max: geometry.Point{X: inf, Y: y}})
+		for _, x := range xs {
+			out = append(out, geometry.Rect{Min: geometry.Point{X: x, Y: y}, Max: geometry.Point{X: x, Y: y}})
+		}
+	}
+	return out
+}
+
 func latticeQueries(k, off int, half bool) []geometry.Rect {
 	vals := []float64{math.Inf(-1), math.Inf(1)}
 	for i := 0; i < k; i++ {
@@ -619,7 +682,7 @@ func seriesCase(pts []geometry.Point, closed bool) rt.Case {
 }
 
 func runC04(r *rt.Run) {
-	r.Rule = "insert histories: every point sequence up to a depth over small lattices; 15 layout families x sizes crossing every structural threshold x <=1 (thorough <=2 for n<=66) displaced points at every position x 25 targets; each under {r-tree, quadtree} x MinPoints {1, n, n+1}, open and closed; probes: grid of query rectangles incl. infinite bounds and 1-ulp neighbours x every early-stop position; then predicate answers under every index and after Move; non-trivial = series with at least one segment"
+	r.Rule = "insert histories: every point sequence up to a depth over small lattices; 16 layout families x sizes crossing every structural threshold x <=1 (thorough <=2 for n<=66) displaced points at every position x 25 targets; each under {r-tree, quadtree} x MinPoints {1, n, n+1}, open and closed; probes: grid of query rectangles incl. infinite bounds and 1-ulp neighbours x every early-stop position; then predicate answers under every index and after Move; non-trivial = series with at least one segment"
 	r.Assume = []string{"oracle: brute force over SegmentAt(i).Rect() by definition", "index bytes are decoded only to measure which encodings occurred"}
 	var stats idxStats
 	r.Describe = runC04Describe
@@ -723,6 +786,9 @@ func runC04(r *rt.Run) {
 			pts[d[0]] = displaceTargets[d[1]]
 		}
 		queries := queryRects(pts, j.m)
+		if len(j.dev) == 0 && j.n <= 4097 && j.n >= 2 {
+			queries = append(queries, midlineQueries(rectOf(pts))...)
+		}
 		ctx := &c04ctx{}
 		var st idxStats
 		for _, closed := range []bool{false, true} {
